@@ -19,6 +19,8 @@ type OracleC07 struct {
 	have       bool
 	aggregated map[string]int64 // qid|metaId -> height
 	prevMin    *big.Int
+	prevStake  map[string]*stakeSnap // reporter -> bonded stake terms at the end of the previous block
+	prevValJ   map[string]bool       // validator -> jailed at the end of the previous block
 }
 
 func NewOracleC07() *OracleC07 {
@@ -158,6 +160,64 @@ func (o *OracleC07) AfterBlock(c *Chain, b *BlockCtx) []*Violation {
 	for _, r := range v.Reports() {
 		if r.Rep.BlockNumber == h && new(big.Int).SetUint64(r.Rep.Power).Cmp(minPower) < 0 {
 			out = append(out, o.v(b.H, "admission", "MsgSubmitValue", "below-minimum-stake", "report by %s stored with power %d, minimum stake %s", r.Reporter, r.Rep.Power, params.MinStakeAmount))
+		}
+	}
+	// the same condition against the staking module's own state (not the power the report carries): what the
+	// reporter's selectors had with bonded validators at the end of the previous block, for reports that are not
+	// preceded in their block by anything that moves stake
+	curStake, _ := bondedStakeSnapshot(v)
+	curValJ := map[string]bool{}
+	stakeMoved := false
+	for _, val := range v.Validators() {
+		curValJ[val.OperatorAddress] = val.Jailed
+		if val.Jailed && o.prevValJ != nil && !o.prevValJ[val.OperatorAddress] {
+			stakeMoved = true // jailed in this block: power index and bonded status disagree until EndBlock (grey)
+		}
+	}
+	for _, e := range b.Res.Events {
+		if e.Type == "dispute_executed" {
+			stakeMoved = true
+		}
+	}
+	prevStake := o.prevStake
+	defer func() { o.prevStake, o.prevValJ = curStake, curValJ }()
+	if prevStake != nil && !stakeMoved {
+		firstStake := len(b.Txs) * 100
+		for i, tr := range b.Txs {
+			in := c.IntentOfTx(b, i)
+			if in == nil || tr.Code != 0 {
+				continue
+			}
+			for mi, m := range in.Msgs {
+				if stakeKinds[m.K] && i*100+mi < firstStake {
+					firstStake = i*100 + mi
+				}
+			}
+		}
+		for i, tr := range b.Txs {
+			in := c.IntentOfTx(b, i)
+			if in == nil || tr.Code != 0 {
+				continue
+			}
+			signer := c.Accounts.Addr(in.Actor)
+			for mi := range in.Msgs {
+				if in.Msgs[mi].K != "submit_value" || i*100+mi > firstStake {
+					continue
+				}
+				snap := prevStake[string(signer)]
+				total := new(big.Int)
+				n := 0
+				if snap != nil {
+					for _, t := range snap.terms {
+						total.Add(total, t.Tokens) // locked selectors included: the most the reporter could be credited with
+						n++
+					}
+				}
+				o.count("accepted_reports_checked_against_staking_state")
+				if new(big.Int).Add(total, big.NewInt(int64(n))).Cmp(minStake) < 0 {
+					out = append(out, o.v(b.H, "admission", "MsgSubmitValue", "below-minimum-stake:by-staking-state", "tx %d: report by %s accepted although its selectors had only %s loya with bonded validators at the end of the previous block (minimum stake %s)", i, signer, total, minStake))
+				}
+			}
 		}
 	}
 
